@@ -2,7 +2,8 @@
    Property theorems only; proofs in proofs/CrashProofs.v; model in model/Crash.v (on top of
    model/Graph.v); design.d/C05.md says what is partial and why. *)
 From Coq Require Import List NArith Bool.
-From SV Require Import lib.Bytes model.Graph model.GraphInv gen.GenCrash model.Crash proofs.CrashProofs.
+From SV Require Import lib.Bytes model.Graph model.GraphInv gen.GenCrash model.Crash proofs.CrashProofs
+  proofs.CrashReach.
 Import ListNotations.
 Open Scope N_scope.
 
@@ -36,7 +37,7 @@ Theorem C05_source_structure :
   reset_interrupted_updates = [(24, 22); (21, 25)] /\ reset_interrupted_failed_loop = true /\
   rescan_unconfirmed_cause = cause_code CConfirmed /\
   serve_sequence = [1; 2; 3; 4; 5].
-Proof. repeat split; reflexivity. Qed.
+Proof. exact source_structure. Qed.
 
 (* ---- 1. opening a crashed database -----------------------------------------------------------*)
 (* Trellis._check_consistency (per-row creator/detached agreement, reachability from the root,
@@ -60,6 +61,15 @@ Theorem C05_open_every_prefix :
     open_db repair strict cap (db_at cap ops (S k)) = Ok (run_ops (firstn k ops) (init_st cap)).
 Proof. exact open_prefix_ok. Qed.
 
+(* The same with C09's theorem in place of the invariant hypothesis: for every history that
+   respects the hold protocol (C09_reachable_inv), whatever the arguments of its transactions. *)
+Theorem C05_open_every_reachable_prefix :
+  forall cap ops k repair strict,
+    protocol_run_b (init_st cap) (firstn k ops) = true ->
+    inv_succeeded_b (run_ops (firstn k ops) (init_st cap)) = true ->
+    open_db repair strict cap (db_at cap ops (S k)) = Ok (run_ops (firstn k ops) (init_st cap)).
+Proof. exact open_reachable_prefix_ok. Qed.
+
 (* Crash point 0 (schema applied in autocommit mode, root never committed).  With the code as it
    is read today this is the error of finding D13 when open_creates_missing_root = false, and a
    fresh start when the not-fresh branch creates the missing root. *)
@@ -67,11 +77,11 @@ Theorem C05_open_point_zero :
   forall cap ops strict,
     open_db_now strict cap (db_at cap ops 0) =
     if open_creates_missing_root then Ok (init_st cap) else Internal 300.
-Proof. intros. apply open_point_zero. Qed.
+Proof. exact open_point_zero_now. Qed.
 
 Theorem C05_open_point_zero_refuted_without_root_repair :
   forall cap ops strict, exists t, open_db false strict cap (db_at cap ops 0) = Internal t.
-Proof. intros. exists 300. reflexivity. Qed.
+Proof. exact open_point_zero_refuted. Qed.
 
 (* ---- 2. interrupted steps ---------------------------------------------------------------------*)
 Theorem C05_reset_interrupted_post :
@@ -108,7 +118,7 @@ Theorem C05_started_facts_kept_by_state_only_transactions :
                | _ => False end ->
     step_op o s = Ok s' -> has_hash l s = false -> built_products l s = [] ->
     has_hash l s' = false /\ built_products l s' = [].
-Proof. intros o s s' l Hk H. apply started_kept_by_frame. eapply state_only_ops_frame; eassumption. Qed.
+Proof. exact started_kept_by_state_only. Qed.
 
 (* The invariant over ALL transactions (declarations and completions of other steps included),
    stated, not proved; checked on every crashed database by the oracle. *)
@@ -145,9 +155,7 @@ Theorem C05_crash_no_orphans_partial :
   (forall s s' q, delete_detached_q s = Ok (s', q) ->
      forall e, In e q -> exists r, In r (files s) /\ fl r = fst e /\
        (fstt r = FVolatile \/ fstt r = FBuilt \/ fstt r = FOutdated) /\ find_file (fl r) s' = None).
-Proof.
-  split; [exact crash_no_orphans_W0|]. split; [exact revert_queue_recorded | exact dd_queue_recorded].
-Qed.
+Proof. exact crash_no_orphans_partial. Qed.
 
 (* ---- non-vacuity ---------------------------------------------------------------------------- *)
 (* every prefix of the two witness histories satisfies the hypotheses used above, opens without
